@@ -20,6 +20,18 @@ func (m *Messages) init() {
 	}
 }
 
+// Clone returns a copy that does not share the underlying map.
+func (m Messages) Clone() Messages {
+	if m.messages == nil {
+		return Messages{}
+	}
+	clone := Messages{messages: make(map[string]bool, len(m.messages))}
+	for key, value := range m.messages {
+		clone.messages[key] = value
+	}
+	return clone
+}
+
 func (m Messages) IsEmpty() bool {
 	// TODO replacement for Action.skipCache - does this need to consider suppressed messages or is this fine?
 	return len(m.messages) == 0
